@@ -309,11 +309,39 @@ func runGoogleValidatorRederivesGroups(c *Ctx, rule string) {
 		return
 	}
 	n := 0
-	for _, an := range outer.AnonFuncs {
-		if len(an.Params) != 1 || an.Signature.Results().Len() != 1 {
-			continue
+	// the validator is whatever setGroupRestriction stores into the provider's groupValidator field: a closure literal or
+	// a bound method value (neutral batch 9); its session is its last parameter
+	var validators []*ssa.Function
+	for _, b := range outer.Blocks {
+		for _, in := range b.Instrs {
+			st, ok := in.(*ssa.Store)
+			if !ok {
+				continue
+			}
+			fa, ok := st.Addr.(*ssa.FieldAddr)
+			if !ok || walk.FieldOf(fa.X.Type(), fa.Field) == nil || walk.FieldOf(fa.X.Type(), fa.Field).Name() != "groupValidator" {
+				continue
+			}
+			var fn *ssa.Function
+			switch x := unwrap0(st.Val).(type) {
+			case *ssa.MakeClosure:
+				fn, _ = x.Fn.(*ssa.Function)
+			case *ssa.Function:
+				fn = x
+			}
+			if fn != nil && fn.Synthetic != "" {
+				if m := boundOf(fn); m != nil {
+					fn = m
+				}
+			}
+			if fn != nil && len(fn.Blocks) > 0 && len(fn.Params) > 0 {
+				validators = append(validators, fn)
+			}
 		}
+	}
+	for _, an := range validators {
 		an := an
+		sessP := an.Params[len(an.Params)-1]
 		key := "groups-reset-on-every-path|" + fnKey(an)
 		bad := false
 		c.Walk(rule, an, func(p *walk.Path) {
@@ -329,7 +357,7 @@ func runGoogleValidatorRederivesGroups(c *Ctx, rule string) {
 					continue
 				}
 				fa, ok := st.Addr.(*ssa.FieldAddr)
-				if !ok || fa.X != ssa.Value(an.Params[0]) || walk.FieldOf(fa.X.Type(), fa.Field) != groupsF {
+				if !ok || fa.X != ssa.Value(sessP) || walk.FieldOf(fa.X.Type(), fa.Field) != groupsF {
 					continue
 				}
 				dependsOnOld := false
@@ -341,7 +369,7 @@ func runGoogleValidatorRederivesGroups(c *Ctx, rule string) {
 					}
 					seen[v] = true
 					if ld, ok := v.(*ssa.UnOp); ok && ld.Op == token.MUL {
-						if a, ok := ld.X.(*ssa.FieldAddr); ok && a.X == ssa.Value(an.Params[0]) && walk.FieldOf(a.X.Type(), a.Field) == groupsF {
+						if a, ok := ld.X.(*ssa.FieldAddr); ok && a.X == ssa.Value(sessP) && walk.FieldOf(a.X.Type(), a.Field) == groupsF {
 							dependsOnOld = true
 						}
 					}
